@@ -27,7 +27,7 @@ def _run_one(job: dict, timeout: int):
     return json.loads(p.stdout)
 
 
-def run_worker(mode: str, cases: List[dict], extra: Dict, nproc: int = NCPU, timeout: int = 900):
+def run_worker(mode: str, cases: List[dict], extra: Dict, nproc: int = NCPU, timeout: int = 900, _retry: bool = True):
     """Run the real code on the cases, split round-robin over worker processes, results in order.
     returns (results, meta) where meta is the non-list part of the first worker's answer (c08: table)."""
     if not cases:
@@ -52,4 +52,13 @@ def run_worker(mode: str, cases: List[dict], extra: Dict, nproc: int = NCPU, tim
             r = r["results"]
         for j, x in enumerate(r):
             out[k + j * nproc] = x
+    if _retry:
+        # a case whose run failed in the HARNESS (not in the code under test) is run once more, alone in a fresh worker:
+        # only a failure that repeats is reported (real TCP on a loaded machine: a lost race is not a finding)
+        again = [i for i, x in enumerate(out) if x is None or ("harness_error" in x and not x.get("manager_died"))]
+        if again and len(again) <= 20:
+            for i in again:
+                r2, _ = run_worker(mode, [cases[i]], extra, nproc=1, timeout=timeout, _retry=False)
+                if r2 and r2[0] is not None and "harness_error" not in r2[0]:
+                    out[i] = r2[0]
     return out, meta
